@@ -397,6 +397,35 @@ func (fc *funcContext) translateStmt(stmt ast.Stmt, label *types.Label) {
 				}
 			}
 		case len(s.Lhs) == len(s.Rhs):
+			// The operands of index expressions on the left are evaluated before
+			// any of the assignments is carried out: an index that mentions a
+			// variable assigned earlier in the same statement must see its old value.
+			lhsList := make([]ast.Expr, len(s.Lhs))
+			assigned := map[types.Object]bool{}
+			for i, lhs := range s.Lhs {
+				lhs = astutil.RemoveParens(lhs)
+				lhsList[i] = lhs
+				if ie, ok := lhs.(*ast.IndexExpr); ok && len(assigned) > 0 {
+					usesAssigned := false
+					ast.Inspect(ie.Index, func(n ast.Node) bool {
+						if id, ok := n.(*ast.Ident); ok && assigned[fc.pkgCtx.Uses[id]] {
+							usesAssigned = true
+						}
+						return !usesAssigned
+					})
+					if usesAssigned {
+						indexVar := fc.newLocalVariable("_index")
+						indexType := fc.typeOf(ie.Index)
+						fc.Printf("%s", fc.translateAssign(fc.newIdent(indexVar, indexType), ie.Index, true))
+						lhsList[i] = fc.setType(&ast.IndexExpr{X: ie.X, Lbrack: ie.Lbrack, Index: fc.newIdent(indexVar, indexType), Rbrack: ie.Rbrack}, fc.typeOf(ie))
+					}
+				}
+				if id, ok := lhs.(*ast.Ident); ok {
+					if obj := fc.pkgCtx.ObjectOf(id); obj != nil {
+						assigned[obj] = true
+					}
+				}
+			}
 			tmpVars := make([]string, len(s.Rhs))
 			for i, rhs := range s.Rhs {
 				tmpVars[i] = fc.newLocalVariable("_tmp")
@@ -406,8 +435,7 @@ func (fc *funcContext) translateStmt(stmt ast.Stmt, label *types.Label) {
 				}
 				fc.Printf("%s", fc.translateAssign(fc.newIdent(tmpVars[i], fc.typeOf(s.Lhs[i])), rhs, true))
 			}
-			for i, lhs := range s.Lhs {
-				lhs = astutil.RemoveParens(lhs)
+			for i, lhs := range lhsList {
 				if !isBlank(lhs) {
 					fc.Printf("%s", fc.translateAssign(lhs, fc.newIdent(tmpVars[i], fc.typeOf(lhs)), s.Tok == token.DEFINE))
 				}
